@@ -289,7 +289,11 @@ C02Kinds == IF Proc /\ Rq.k = "Custom" /\ Rq.to # <<>> THEN C02RelayTypes \ {"CU
 Ok_C02 ==
   IsStep /\ Flags = {} =>
     LET E == ExpectedRelays IN
-    \A d \in Conns : Sel(ev.out[d], C02Kinds) = Sel(E[d], C02Kinds)
+    /\ \A d \in Conns : Sel(ev.out[d], C02Kinds) = Sel(E[d], C02Kinds)
+    \* a request that is answered with an error (and leaves the connection open) is relayed to no one - whatever
+    \* the state did: the relays above are derived from the logged state change, this clause from the answer
+    /\ (Proc /\ ev.ret = "ok" /\ Has(ev.out[Actor], {"ERROR"})) =>
+          \A d \in Conns \ {Actor} : Sel(ev.out[d], C02RelayTypes) = <<>>
 
 (***************************************************************************)
 (* C03  sessions are isolated (local respect; the differential of the      *)
